@@ -162,3 +162,98 @@ specialise(
     reach=False,
     classifier=lambda call, replay: "F18" if (replay.get("exception") or {}).get("type") in ("KeyError", "PyXFormError", "TypeError") else None,
 )
+
+
+# ---- c: feature rows: triggers, OSM tags, or_other, shared lists --------------------------------------
+OSM_SHEET = [{"list_name": "tags", "name": "building", "label": "Building"}, {"list_name": "tags", "name": "amenity", "label": "Amenity"}]
+CH2 = [{"list_name": "l1", "name": "a", "label": "A"}, {"list_name": "l1", "name": "b", "label": "B"}]
+
+
+def _roundtrip_ok(wb) -> bool:
+    survey, _w, js = build_survey(wb)
+    t1 = tree(survey.xml())
+    sa = create_survey_element_from_dict(jsoncopy(js))
+    if tree(sa.xml()) != t1:
+        return False
+    j1 = survey.to_json_dict()
+    s2 = create_survey_element_from_dict(jsoncopy(j1))
+    if tree(s2.xml()) != t1:
+        return False
+    j2 = s2.to_json_dict()
+    if jsoncopy(j1) != jsoncopy(j2):
+        return False
+    # a second dump/load cycle: derived tables must not grow
+    s3 = create_survey_element_from_dict(jsoncopy(j2))
+    return tree(s3.xml()) == t1 and jsoncopy(s3.to_json_dict()) == jsoncopy(j1)
+
+
+def c16_features(variant: int, f_trig: bool, f_geo: bool, f_two: bool, f_x: bool, c0: int) -> bool:
+    """
+    vpre: 97 <= c0 <= 122
+    vpost: _ == True
+    """
+    lab = S(c0, 65)
+    rows = [{"type": "text", "name": "t", "label": lab}]
+    if f_trig:
+        rows.append({"type": "calculate", "name": "c", "calculation": "1 + 1", "trigger": "${t}"})
+    if f_two:
+        rows.append({"type": "text", "name": "c2", "label": "C2", "calculation": "2", "trigger": "${t}"})
+    if f_geo:
+        rows.append({"type": "background-geopoint", "name": "g", "trigger": "${t}"})
+    wb = {"survey": rows}
+    if variant == 0:  # OSM question with tags (no choices sheet)
+        if f_x:
+            rows.append({"type": "osm tags", "name": "o", "label": lab})
+            wb["osm"] = OSM_SHEET
+    elif variant == 1:  # selects sharing a list, one with or_other
+        rows.append({"type": "select_one l1" + (" or_other" if f_x else ""), "name": "s1", "label": lab})
+        rows.append({"type": "select_multiple l1", "name": "s2", "label": "S2"})
+        wb["choices"] = CH2
+    else:  # trigger targets inside a repeat + dynamic default
+        rows += [{"type": "begin repeat", "name": "r", "label": "R"}, {"type": "text", "name": "u", "label": "U", "default": "now()" if f_x else "d"}, {"type": "end repeat"}]
+    return _roundtrip_ok(wb)
+
+
+specialise(
+    "C16",
+    "c.features",
+    c16_features,
+    {"variant": [0, 1, 2]},
+    timeout=500,
+    kernel=K + ("pyxform.builder:SurveyElementBuilder._save_trigger", "pyxform.question:OsmUploadQuestion.__init__", "pyxform.utils:combine_lists"),
+    shims=("S1", "S2", "S3", "S4"),
+    symbolic="presence of a triggered calculate, a second triggered target, a triggered background-geopoint and one variant-specific feature (4 symbolic booleans), label tracer character",
+    bounds="variant fixed per instance: OSM question with tags / two selects sharing a list (or_other) / repeat with static or dynamic default; workbook-JSON reload, survey dump reload, dump stability and a second dump/load cycle",
+    weight=120,
+)
+
+
+def c16_known_reload(which: int, c0: int) -> bool:
+    """
+    vpre: 97 <= c0 <= 122
+    vpost: _ == True
+    """
+    lab = S(c0, 65)
+    if which == 0:  # legacy add_none_option setting
+        wb = {"survey": [{"type": "select_multiple l1", "name": "m1", "label": lab}], "choices": CH2, "settings": [{"add_none_option": "yes"}]}
+    else:  # OSM question in a form that also has a choices sheet
+        wb = {"survey": [{"type": "osm tags", "name": "o", "label": lab}, {"type": "select_one l1", "name": "s", "label": "S"}], "osm": OSM_SHEET, "choices": CH2}
+    return _roundtrip_ok(wb)
+
+
+for _w, _fid in ((0, "F21"), (1, "F22")):
+    specialise(
+        "C16",
+        "c.reload-known",
+        c16_known_reload,
+        {"which": [_w]},
+        timeout=200,
+        kernel=K,
+        shims=("S1", "S2", "S3", "S4"),
+        symbolic="label tracer character",
+        bounds="form reported by a round-2 reviewer: " + ("add_none_option=yes with a select_multiple (F21)" if _w == 0 else "OSM question next to a choices sheet (F22)") + "; expected to reproduce the known finding",
+        weight=20,
+        expect="known",
+        reach=False,
+        classifier=(lambda fid: (lambda call, replay: fid))(_fid),
+    )
